@@ -661,8 +661,10 @@ def optimize(dsk, keys, **kwargs):
         keys = [keys]
 
     if config.get("optimization.fuse.delayed"):
-        dsk = ensure_dict(dsk)
-        dsk = fuse_linear_task_spec(dsk, keys, **kwargs)
+        # The graph may still hold legacy tuple tasks (e.g. after dask.optimize)
+        dsk = convert_legacy_graph(ensure_dict(dsk))
+        # keys can be nested (one list per collection when several are computed together)
+        dsk = fuse_linear_task_spec(dsk, list(flatten(keys)), **kwargs)
 
     if not isinstance(dsk, HighLevelGraph):
         dsk = HighLevelGraph.from_collections(id(dsk), dsk, dependencies=())
